@@ -23,6 +23,7 @@ func init() {
 			ruleFetchContainers(r)
 			ruleMatcherLoop(r)
 			ruleSanitiserSites(r)
+			ruleSelectLogsWindow(r)
 		},
 	})
 }
